@@ -99,9 +99,7 @@ func main() {
 	sc.Write("go.race.mod", []byte(race))
 	sum, _ := os.ReadFile(sc.Path("go.sum"))
 	sc.Write("go.race.sum", sum)
-	if err := sc.Build("driver", "driver.bin"); err != nil {
-		vf.Fatal("%v", err)
-	}
+	sc.BuildChecked(r, "driver", "driver.bin")
 	// ----- exhaustive exploration, sharded over processes
 	shards := 16
 	var wg sync.WaitGroup
